@@ -193,6 +193,66 @@ func TestC12Close(t *testing.T) {
 			}
 		}
 	}
+	// selfClose: nobody calls Close.  One endpoint has keepalive on, the other
+	// none; at some instant the packets of the other endpoint stop arriving
+	// (its own transport keeps taking them), so the keepalive endpoint closes
+	// the connection itself - from inside its send loop - while its transport
+	// towards the peer still works: the peer must be told by a FIN and its
+	// blocked calls must fail instead of hanging.
+	for _, who := range []string{"c", "s"} {
+		for _, at := range []int{0, 130, 1010, 1700} {
+			for _, msgs := range [][2]int{{0, 0}, {6, 4}} {
+				idx++
+				if !thorough && (idx+int(seed()))%2 != 0 && !(at == 130 && msgs[0] == 0) {
+					continue
+				}
+				who, at, msgs := who, at, msgs
+				peer := map[string]string{"c": "s", "s": "c"}[who]
+				desc := map[string]any{"scenario": "selfClose", "who": who, "net": "peer silent",
+					"atMs": at, "msgs": msgs[0], "i": idx}
+				noteCurrent(dir, desc)
+				cfg := gbnrun.Config{
+					N:           2,
+					Static:      time.Second,
+					Msgs:        msgs,
+					Latency:     40 * time.Millisecond,
+					Horizon:     3 * time.Minute,
+					RecvForever: true,
+					CloseScript: func(r *gbnrun.Run) {},
+				}
+				wi := map[string]int{"c": 0, "s": 1}[who]
+				cfg.Ping[wi] = 700 * time.Millisecond
+				cfg.Pong[wi] = 300 * time.Millisecond
+				cfg.OnReady = func(r *gbnrun.Run) {
+					time.Sleep(time.Duration(at) * time.Millisecond)
+					r.Net.Silence(peer, true)
+					// ping + pong + resends, with room to spare
+					time.Sleep(12 * time.Second)
+					r.Quiesce()
+					r.NoteBlocked("c")
+					r.NoteBlocked("s")
+					r.Rec.Emit("selfClosed", "ep", who)
+					r.Rec.Emit("peerCheck", "ep", peer)
+					var cw sync.WaitGroup
+					for _, ep := range []string{"c", "s"} {
+						ep := ep
+						cw.Add(1)
+						go func() {
+							defer cw.Done()
+							r.Close(ep, "z")
+						}()
+					}
+					cw.Wait()
+				}
+				var run *gbnrun.Run
+				synctest.Test(t, func(t *testing.T) {
+					run = gbnrun.Execute(cfg)
+				})
+				ts.add("all", run.Rec.Events(), desc, true, map[string]any{
+					"leaked": len(run.Leaked)})
+			}
+		}
+	}
 	// A connection attempt abandoned during its handshake (the peer never
 	// answers, the caller cancels the context): the constructor returns an
 	// error and nothing of it stays behind.  Real time, one at a time (the
